@@ -1712,7 +1712,8 @@ SKELETON_GROUPS = {
     "SgPermSkel": [("utils/utils.py", ["round_positions", "argsort_positions", "_find_optimal_decimals",
                                        "compute_sg_permutations"])],
     "PipelineSkel": [("basis_sets/basis_sets_base.py", None), ("basis_sets/basis_sets_O2.py", None),
-                     ("basis_sets/basis_sets_O3.py", None), ("basis_sets/basis_sets_O4.py", None)],
+                     ("basis_sets/basis_sets_O3.py", None), ("basis_sets/basis_sets_O4.py", None),
+                     ("basis_sets/basis_sets_O1.py", None), ("utils/utils.py", "CLASS:SymfcAtoms")],
 }
 
 
@@ -1760,6 +1761,15 @@ def _group_skeletons(group):
     res = {}
     for rel, names in SKELETON_GROUPS[group]:
         mod = parse(rel)
+        if isinstance(names, str) and names.startswith("CLASS:"):
+            cname = names[6:]
+            cls = [n_ for n_ in mod.body if isinstance(n_, ast.ClassDef) and n_.name == cname]
+            if len(cls) != 1:
+                fail(rel, mod, f"class {cname} not found")
+            for m in cls[0].body:
+                if isinstance(m, (ast.FunctionDef, ast.AsyncFunctionDef)):
+                    res[f"{rel}::{cname}.{m.name}"] = _skeleton(m)
+            continue
         for node in mod.body:
             if isinstance(node, (ast.FunctionDef, ast.AsyncFunctionDef)):
                 if names is None or node.name in names:
